@@ -15,8 +15,10 @@ def gen_cases(rng, n):
     forms = ["vector", "vector", "vector", "float", "int", "np.float64", "np.float32", "np.int64",
              "np.int32", "np.uint8", "np.float16", "np.longdouble"]
     for idx in range(n):
-        kind = idx % 8
+        kind = idx % 10
         T = rng.choice([1, 2, 3, 4, 5, 6, 8, 12]) if kind < 6 else rng.randint(13, 60)
+        if kind >= 8:
+            T = rng.choice([4, 5, 6, 8, 10, 12, 20, 40])
         K = rng.choice([1, 2, 2, 3, 3, 4, 5])
         s = rng.choice([0, 0, 1, 3])
         if kind in (0, 1):
@@ -31,11 +33,29 @@ def gen_cases(rng, n):
         else:
             lo, hi = 0, 40
         cost = [[rng.randint(lo, hi) for _ in range(K)] for _ in range(T)]
+        if kind >= 8:
+            # the regime the library lives in: a hidden piecewise-constant labelling, each point cheap in its own
+            # cluster and dearer elsewhere, and a switching cost AT or ABOVE the spread of the whole table - one switch
+            # never pays at a single point but does over a segment
+            K = max(K, 2)
+            s = 0                                   # unscaled: every beta form (integer types too) holds the value
+            hi, lo = rng.choice([1, 1, 2, 3]), 0
+            hidden, t = [], 0
+            while t < T:
+                seg = rng.randint(2, max(2, T // 2))
+                hidden += [rng.randrange(K)] * seg
+                t += seg
+            hidden = hidden[:T]
+            cost = [[0 if k == hidden[i] else rng.randint(1, hi) for k in range(K)] for i in range(T)]
         if kind == 3 and T > 1:                        # a few huge cells among small ones
             cost = [[(v if rng.random() < 0.2 else v % 7) for v in row] for row in cost]
         form = rng.choice(forms)
         bmax = max(1, min(hi - lo, 2 ** 12))
-        if form == "vector":
+        if kind >= 8:
+            spread = max(max(r) for r in cost) - min(min(r) for r in cost)
+            b0 = spread + rng.choice([0, 0, 1, 2])
+            beta = [b0 + rng.choice([0, 0, 1]) for _ in range(T)] if form == "vector" else b0
+        elif form == "vector":
             beta = [rng.choice([0, 0, 1, rng.randint(0, bmax)]) for _ in range(T)]
         else:
             beta = rng.choice([0, 1, 2, rng.randint(0, bmax)])
